@@ -6,4 +6,12 @@ PROPS = {
         "thorough": {"shards": 16, "timeout_s": 3000, "floors": {"distinct_nontrivial": 100000, "lengths_covered": 131},
                      "engines": ["miri:c16"]},
     },
+    "C19": {
+        "quick": {"shards": 8, "timeout_s": 600, "floors": {"distinct_nontrivial": 1000, "eq_expected_equal": 1000, "eq_expected_unequal": 1000}},
+        "thorough": {"shards": 16, "timeout_s": 3000, "floors": {"distinct_nontrivial": 100000}},
+    },
+    "C08": {
+        "quick": {"shards": 8, "timeout_s": 900, "floors": {"distinct_nontrivial": 20000, "clearly_apart": 1000, "too_far_true": 1000, "closed_form_compared": 1000, "rigid_motion_checked": 1000, "identical_checked": 1000}},
+        "thorough": {"shards": 16, "timeout_s": 3000, "floors": {"distinct_nontrivial": 1000000}},
+    },
 }
